@@ -20,6 +20,10 @@
 (* dropping the generator, throwing into it), the input may raise instead  *)
 (* of giving a value (Abort), and a pipeline of elements that keep nothing *)
 (* between runs may be run again on another flow (Rerun).                  *)
+(* In a Source the generator is the first argument that has data: lead     *)
+(* elements without data (static context) may stand before it.  They take  *)
+(* no part in the flow, the generator feeds stage lead + 1, and it is not  *)
+(* itself a stage.                                                         *)
 (*                                                                         *)
 (* Declarative part: Sem(prog, xs) is the left-to-right composition of the *)
 (* stages' stream transformations; MinNeed gives the input prefix needed   *)
@@ -36,7 +40,8 @@ CONSTANTS MaxLen,     \* programs of 0..MaxLen stages
           MaxOut,     \* an infinite run is observed for MaxOut deliveries
           Vals,       \* "nat": the flow is base, base+1, ...; "special": SpecialFlow of FlowSem
           Stops,      \* TRUE: the consumer may stop early, the input may raise
-          MaxRuns     \* number of runs of the same pipeline object (1 or 2)
+          MaxRuns,    \* number of runs of the same pipeline object (1 or 2)
+          MaxLead     \* at most this many elements without data stand before the generator of a Source
 
 SR == INSTANCE SliceRef      \* Python's list slicing (declarative reference shared with C17)
 
@@ -51,11 +56,15 @@ Scenarios == IF Must = {} THEN Progs(MaxLen)
 ValAt(i, b, pr) == IF Vals = "special" THEN SpecialFlow[i + 1] ELSE Val(i + b, {}, pr)
 FlowOf(n, b, pr) == [j \in 1..n |-> ValAt(j - 1, b, pr)]
 HasBad(prog) == \E i \in 1..Len(prog) : HasBadSt(prog[i])
+\* number of elements without data a program starts with
+RECURSIVE LeadND(_)
+LeadND(p) == IF p = <<>> \/ Head(p).t # "nodata" THEN 0 ELSE 1 + LeadND(Tail(p))
 
 (***************************************************************************)
 (* Operational machine.                                                    *)
 (***************************************************************************)
 VARIABLES prog, N, pairs,  \* scenario
+          lead,            \* Source(e1..e_lead, generator, e_lead+1..en): where the input enters the argument list
           built,           \* result of construction: "ok" | "LenaTypeError"
           pos,             \* values pulled from the source
           loc, q, fin,     \* per stage: local state, output queue, finished
@@ -64,8 +73,8 @@ VARIABLES prog, N, pairs,  \* scenario
           asked,           \* the consumer has asked for a value at least once
           stopped,         \* "no" | "closed" (the consumer stopped) | "raised" (the input raised)
           run, base, prev  \* number of this run, first value of its flow, how the earlier runs ended
-vars == <<prog, N, pairs, built, pos, loc, q, fin, ctl, out, pulls, asked, stopped, run, base, prev>>
-scen == <<prog, pairs, built>>
+vars == <<prog, N, pairs, lead, built, pos, loc, q, fin, ctl, out, pulls, asked, stopped, run, base, prev>>
+scen == <<prog, pairs, built, lead>>
 runvars == <<run, base, prev, N>>
 
 n == Len(prog)
@@ -77,6 +86,7 @@ NeedAt(i) == [at |-> i, k |-> "need", v |-> NoVal]
 Init == /\ prog \in Scenarios
         /\ N \in (0..MaxN) \cup (IF Infinite THEN {Inf} ELSE {})
         /\ pairs \in Pairs
+        /\ lead \in 0..(IF LeadND(prog) < MaxLead THEN LeadND(prog) ELSE MaxLead)
         /\ built = IF HasBad(prog) THEN "LenaTypeError" ELSE "ok"
         /\ pos = 0
         /\ loc = [i \in 1..Len(prog) |-> InitLoc(prog[i])]
@@ -90,7 +100,7 @@ Ask == /\ built = "ok" /\ ctl.k = "idle" /\ Len(out) < MaxOut
        /\ ctl' = NeedAt(n) /\ asked' = TRUE
        /\ UNCHANGED <<scen, runvars, pos, loc, q, fin, out, pulls, stopped>>
 
-StageNeed == /\ ctl.k = "need" /\ ctl.at \in 1..n
+StageNeed == /\ ctl.k = "need" /\ ctl.at \in (lead + 1)..n
              /\ LET i == ctl.at IN
                 IF q[i] # <<>>
                 THEN /\ ctl' = [at |-> i + 1, k |-> "have", v |-> Head(q[i])]
@@ -120,9 +130,9 @@ StageEof == /\ ctl.k = "eof" /\ ctl.at \in 1..n
                /\ fin' = [fin EXCEPT ![i] = TRUE] /\ ctl' = NeedAt(i)
             /\ UNCHANGED <<scen, runvars, pos, loc, out, pulls, asked, stopped>>
 
-Source == /\ ctl.k = "need" /\ ctl.at = 0
-          /\ IF pos < N THEN pos' = pos + 1 /\ ctl' = [at |-> 1, k |-> "have", v |-> ValAt(pos, base, pairs)]
-             ELSE pos' = pos /\ ctl' = [at |-> 1, k |-> "eof", v |-> NoVal]
+Source == /\ ctl.k = "need" /\ ctl.at = lead
+          /\ IF pos < N THEN pos' = pos + 1 /\ ctl' = [at |-> lead + 1, k |-> "have", v |-> ValAt(pos, base, pairs)]
+             ELSE pos' = pos /\ ctl' = [at |-> lead + 1, k |-> "eof", v |-> NoVal]
           /\ UNCHANGED <<scen, runvars, loc, q, fin, out, pulls, asked, stopped>>
 
 Deliver == /\ ctl.at = n + 1 /\ ctl.k = "have"
@@ -135,7 +145,7 @@ Stop == /\ Stops /\ built = "ok" /\ ctl.k = "idle" /\ stopped = "no"
         /\ UNCHANGED <<scen, runvars, pos, loc, q, fin, out, pulls, asked>>
 
 \* the input raises instead of giving its next value: the exception ends every generator of the chain
-Abort == /\ Stops /\ ctl.k = "need" /\ ctl.at = 0 /\ pos < N /\ N # Inf
+Abort == /\ Stops /\ ctl.k = "need" /\ ctl.at = lead /\ pos < N /\ N # Inf
          /\ stopped' = "raised" /\ ctl' = Dead
          /\ UNCHANGED <<scen, runvars, pos, loc, q, fin, out, pulls, asked>>
 
@@ -182,10 +192,14 @@ Regroup == (built = "ok" /\ Exhausted) =>
 \* an element without data is invisible
 HasData(st) == st.t # "nodata"
 NoDataInvisible == (built = "ok" /\ Exhausted) => out = Sem(SelectSeq(prog, HasData), xs)
+\* the elements without data that stand before the generator of a Source are never run, and the generator
+\* is not one of the elements that transform its flow: only stages lead+1..n ever hold the control token
+LeadUntouched == /\ \A i \in 1..lead : prog[i].t = "nodata" /\ q[i] = <<>> /\ ~fin[i]
+                 /\ ctl.at \in lead..(n + 1)
 \* the Slice stages compute Python's slice (reference of C17), whatever the sign pattern
 DataOf(vs) == [k \in 1..Len(vs) |-> vs[k].d - base]
 SliceIsPySlice == (built = "ok" /\ Exhausted /\ n = 1 /\ Vals = "nat") =>
-   LET st == prog[1] IN
+   LET st == Core(prog[1]) IN
    /\ st.t \in {"slice", "nslice"} => DataOf(out) = SR!PySlice(N, st.a, st.b, st.s)
    /\ st.t = "lagk" => DataOf(out) = SR!PySlice(N, None, -st.k, 1)
    /\ st.t = "lastk" => DataOf(out) = SR!PySlice(N, -st.k, None, 1)
@@ -193,21 +207,21 @@ SliceIsPySlice == (built = "ok" /\ Exhausted /\ n = 1 /\ Vals = "nat") =>
 \* C02: nothing happens before the consumer asks
 NoWorkBeforeDemand == ~asked => pos = 0 /\ out = <<>>
 \* C02: the input is pulled only when every stage has nothing left to hand on
-PullOnlyWhenDrained == (ctl.at = 0 /\ ctl.k = "need") => \A i \in 1..n : q[i] = <<>>
+PullOnlyWhenDrained == (ctl.at = lead /\ ctl.k = "need") => \A i \in 1..n : q[i] = <<>>
 \* C02: at the j-th delivery exactly the needed prefix has been pulled
 LazyEqDen == AtRest => \A j \in 1..Len(pulls) : pulls[j] = MinNeed(prog, xs, j)
 \* C02: a Split stage never holds more than bufsize unprocessed values; a negative stop lags by exactly |stop|;
 \*      a negative-index Slice holds at most the |index| values it documents
-Buffers == \A i \in 1..n :
-             /\ (prog[i].t = "split" /\ prog[i].bs # None) => Len(loc[i].buf) < prog[i].bs
-             /\ prog[i].t = "lagk" => /\ Len(loc[i].dq) <= prog[i].k
-                                      /\ loc[i].put = (IF loc[i].got > prog[i].k THEN loc[i].got - prog[i].k ELSE 0)
-             /\ prog[i].t = "lastk" => Len(loc[i].dq) <= prog[i].k
-             /\ prog[i].t = "nslice" =>
-                  /\ Len(loc[i].dq) <= Retention(prog[i])
-                  /\ NsBranch(prog[i]) \in {"A", "B"} =>
-                       LET skip == IF NsBranch(prog[i]) = "B" THEN prog[i].a ELSE 0
-                           lag == skip - prog[i].b IN
+Buffers == \A i \in 1..n : LET st == Core(prog[i]) IN
+             /\ (st.t = "split" /\ st.bs # None) => Len(loc[i].buf) < st.bs      \* whatever copy_buf is
+             /\ st.t = "lagk" => /\ Len(loc[i].dq) <= st.k
+                                 /\ loc[i].put = (IF loc[i].got > st.k THEN loc[i].got - st.k ELSE 0)
+             /\ st.t = "lastk" => Len(loc[i].dq) <= st.k
+             /\ st.t = "nslice" =>
+                  /\ Len(loc[i].dq) <= Retention(st)
+                  /\ NsBranch(st) \in {"A", "B"} =>
+                       LET skip == IF NsBranch(st) = "B" THEN st.a ELSE 0
+                           lag == skip - st.b IN
                        loc[i].ny = (IF loc[i].got > lag THEN loc[i].got - lag ELSE 0)
 \* C02: once the consumer has stopped (or the input has raised) nothing is pulled any more in that run
 NoPullAfterStop == [][(stopped # "no" /\ run' = run) => pos' = pos]_vars
@@ -218,7 +232,7 @@ Terminates == <>Done
 (* Export.                                                                 *)
 (***************************************************************************)
 Emitted == (Done /\ stopped \in {"no", "failed"}) =>
-              PrintT(ToJson([prog |-> prog, n |-> N, pairs |-> pairs, built |-> built,
+              PrintT(ToJson([prog |-> prog, n |-> N, pairs |-> pairs, built |-> built, lead |-> lead,
                              out |-> out, pulls |-> pulls, endpos |-> pos,
                              exhausted |-> Exhausted, base |-> base, prev |-> prev, vals |-> Vals,
                              failed |-> stopped = "failed"]))
@@ -270,6 +284,22 @@ AlphaFail == RaisersC01 \cup {Map("inc"), Filter("even"), Slice(0, 2, 1), Count,
                               SplitSt(<<Map("inc"), Filter("even")>>, 2), RunIf("even", "inc"),
                               RunIfS("even", <<Map("inc"), Raiser(3, "stop")>>), RunIfS("lt2", <<Raiser(1, "value")>>)}
 RaisingC01 == RaisersC01 \cup {RunIfS("even", <<Map("inc"), Raiser(3, "stop")>>), RunIfS("lt2", <<Raiser(1, "value")>>)}
+\* ---- the way an argument is given, not what it computes ----
+\* elements whose class is also a tuple / list / dict or has an unusual __eq__ (named tuples with a run or a
+\* __call__ method are a common way to write small parametrised elements); static context elements of every
+\* kind, also BEFORE the generator of a Source (MaxLead); Split that does not copy its buffer
+HostedC01 == {Hosted("nt", Map("inc")), Hosted("ntf", Map("inc")), Hosted("nt", Filter("even")),
+              Hosted("list", Sum), Hosted("dict", Map("inc")), Hosted("eq", Filter("even"))}
+NoDatas == {NoData, NoDataK("store"), NoDataK("set2")}
+ObjC01 == HostedC01 \cup NoDatas \cup {SplitC(<<Map("inc"), Filter("even")>>, 2, FALSE)}
+CtxObj == {Map("dbl"), Reverse, Slice(1, 3, 1)}
+AlphaObj == ObjC01 \cup CtxObj
+HostKinds == {"nt", "ntf", "list", "dict", "eq"}
+ObjC01T == {Hosted(h, el) : h \in HostKinds, el \in {Map("inc"), Filter("even"), Sum, Slice(1, 3, 1), Count}}
+           \cup NoDatas \cup {SplitC(<<Map("inc"), Filter("even")>>, 2, FALSE), SplitC(<<SeqSum("dbl"), Map("inc")>>, 1, FALSE)}
+AlphaObjT == ObjC01T \cup CtxObj
+\* deeper argument lists that start with static context elements
+AlphaLead == NoDatas \cup {Map("inc"), Count, Slice(1, 3, 1), Sum, Hosted("nt", Map("inc"))}
 AlphaC01Small == {Map("inc"), Map("tag"), Filter("even"), Slice(1, 3, 1), LagK(1), Count,
                   RunIf("even", "inc"), Reverse, Sum, SplitSt(<<Map("inc"), Sum>>, 2), Bad("int")}
 \* ---- C02 ----
@@ -283,14 +313,17 @@ ExtC02 == {Map("print"), NoData, NSlice(1, -1, 1), NSlice(None, -2, 2), NSlice(0
            SplitSt(<<>>, 2), SplitSt(<<Map("inc")>>, None), SplitSt(<<Map("inc")>>, 1000),
            SplitSt(<<Map("inc"), Filter("even")>>, 1),
            SplitSt(<<SeqBr(<<Filter("even"), Map("inc")>>), SeqBr(<<SplitSt(<<Map("dbl"), Map("inc")>>, 1)>>)>>, 3),
-           SplitSt(<<SeqBr(<<Slice(0, 1, 1)>>)>>, 2)}
+           SplitSt(<<SeqBr(<<Slice(0, 1, 1)>>)>>, 2),
+           \* copy_buf=False: the documented general form of RunIf is Split([...], bufsize=1, copy_buf=False)
+           SplitC(<<Map("inc"), Filter("even")>>, 1, FALSE), SplitC(<<Map("inc"), Map("dbl")>>, 2, FALSE),
+           SplitC(<<SeqBr(<<Filter("even"), Map("inc")>>)>>, 3, FALSE)}
 AlphaC02Ext == ExtC02 \cup CtxC02
 AlphaC02Small == {Map("inc"), Map("var"), Filter("even"), Slice(0, 2, 1), Slice(0, 3, 2), LagK(1), Count,
                   RunIf("even", "drop"), SplitSt(<<Map("inc"), Filter("even")>>, 2)}
 \* productive stages followed by a finite Slice: must terminate on an infinite source
 AlphaLive == {Map("inc"), Filter("even"), Count, RunIf("even", "inc"), Slice(0, 2, 1), Slice(1, 3, 1),
               SplitSt(<<Map("inc")>>, 2)}
-HasFiniteSlice == \E i \in 1..Len(prog) : prog[i].t = "slice" /\ prog[i].b # None
+HasFiniteSlice == \E i \in 1..Len(prog) : Core(prog[i]).t = "slice" /\ Core(prog[i]).b # None
 TerminatesIfSliced == HasFiniteSlice => <>Done
 Bounded == pos <= MaxOut * 4 + 8
 Both == {TRUE, FALSE}
